@@ -590,13 +590,15 @@ function lpegrex.calcline(subject, position)
   if position < 0 then error 'invalid position' end
   local sublen = #subject
   if position > sublen then position = sublen end
-  local caps = calclinepatt:match(subject:sub(1,position))
+  -- only newlines strictly before `position` start a new line: a position that sits on a newline
+  -- belongs to the line it terminates (column = line length + 1), never to column 0 of the next one
+  local caps = calclinepatt:match(subject:sub(1,position > 0 and position-1 or 0))
   local ncaps = #caps
   local lineno = ncaps + 1
   local lastpos = caps[ncaps] or 0
   local linestart = lastpos + 1
   local colno = position - lastpos
-  local lineend = subject:find("\n", position+1, true)
+  local lineend = subject:find("\n", position > 0 and position or 1, true)
   lineend = lineend and lineend-1 or #subject
   local line = subject:sub(linestart, lineend)
   return lineno, colno, line, linestart, lineend
